@@ -2,6 +2,7 @@ package main
 
 import (
 	"context"
+	"errors"
 	"io"
 	"net"
 	"strings"
@@ -121,11 +122,15 @@ func (n *c09Net) accept(connId uint16) ([]byte, error) {
 // ---- store, keys, contents ----
 
 type c09Store struct {
-	radius *uint256.Int
-	items  map[string][]byte
+	radius  *uint256.Int
+	items   map[string][]byte
+	failing map[string]bool // keys whose lookup fails with an error other than "not found" (as the real adapters' do)
 }
 
 func (s *c09Store) Get(k, _ []byte) ([]byte, error) {
+	if s.failing[string(k)] {
+		return nil, errors.New("store: lookup failed (not a not-found)")
+	}
 	if v, ok := s.items[string(k)]; ok {
 		return v, nil
 	}
@@ -149,14 +154,15 @@ func c09Node(nw *c09Net, limit int) (*bareNode, *c09Store) {
 
 // key class bits
 const (
-	c09Out      = 1 // outside the radius
-	c09Stored   = 2
-	c09InFlight = 4
+	c09Out         = 1 // outside the radius
+	c09Stored      = 2
+	c09InFlight    = 4
+	c09LookupFails = 8 // the store's Get fails for this key with an error that is not "not found"
 )
 
 func c09ClassName(c int) string {
 	var parts []string
-	for i, n := range []string{"out", "stored", "inflight"} {
+	for i, n := range []string{"out", "stored", "inflight", "lookup-fails"} {
 		if c>>uint(i)&1 == 1 {
 			parts = append(parts, n)
 		}
